@@ -112,10 +112,15 @@ def real_run(case):
             if kind == "sim":
                 sim.simulate(float(F(op[1])), steps=op[2])
             elif kind == "tc":
-                arr = np.array([float(F(t)) for t in op[1]], dtype=float)
-                keep = arr.copy()
+                vals = [F(t) for t in op[1]]
+                if vals and all(v.denominator == 1 for v in vals) and int(sum(vals)) % 2 == 1:
+                    # callers also pass integer-typed grids (lists of ints / integer arrays)
+                    arr = np.array([int(v) for v in vals], dtype=int) if len(vals) % 2 else [int(v) for v in vals]
+                else:
+                    arr = np.array([float(v) for v in vals], dtype=float)
+                keep = np.array(arr).copy()
                 sim.simulate_time_course(arr)
-                if not np.array_equal(arr, keep):
+                if not np.array_equal(np.array(arr), keep):
                     touched = "caller's time-point array was modified"
             elif kind == "steady":
                 sim.simulate_to_steady_state()
